@@ -11,7 +11,11 @@ mod guardseq;
 mod list;
 mod liststress;
 mod pure;
+#[global_allocator]
+static GLOBAL: util::CountingAlloc = util::CountingAlloc;
+
 mod queue;
+mod regleak;
 mod rc;
 mod sched;
 mod traits;
@@ -129,6 +133,17 @@ fn main() {
             let mut o = util::Out::create(&out);
             let mut rng = util::Rng::new(seed);
             let mut fails = 0;
+            if cmd == "queue" {
+                // corpus first: a conditional pop that loses many races in a row (never empty) must still succeed
+                for (m, k) in [(16usize, 14usize), (24, 22), (13, 12), (40, 36)] {
+                    let (line, mon) = queue::run_case_starve(m, k, &mut rng);
+                    o.line(&line);
+                    for m in mon {
+                        fails += 1;
+                        o.line(&m);
+                    }
+                }
+            }
             for _ in 0..n {
                 let (line, mon) = if cmd == "queue" {
                     if rng.chance(1, 4) {
@@ -150,6 +165,10 @@ fn main() {
             }
             let lines = o.finish();
             println!("{}: cases={} lines={} monitor_failures={}", cmd, n, lines, fails);
+        }
+        "reg-leak" => {
+            let (checks, _, fails) = regleak::run(&out, seed, thorough);
+            println!("reg-leak: checks={} property_failures={}", checks, fails);
         }
         "d9" => {
             let n: usize = arg(&args, "--chain").and_then(|s| s.parse().ok()).unwrap_or(1000);
